@@ -53,14 +53,19 @@ type paramsManager interface {
 type VoteStatus struct {
 	chamber map[VoteType]bool
 	house   map[VoteType]bool
+	// chamberTh remembers the threshold in force when the chamber quorum of a vote kind was seen,
+	// so that commit can test the votes it packs against the same quorum.
+	chamberTh map[VoteType]uint64
 }
 
-func (vs *VoteStatus) update(voteType VoteType, validatorType params.ValidatorKind) {
+func (vs *VoteStatus) update(voteType VoteType, validatorType params.ValidatorKind, threshold uint64) {
 	if validatorType == params.KindChamber {
 		if vs.chamber == nil {
 			vs.chamber = make(map[VoteType]bool)
+			vs.chamberTh = make(map[VoteType]uint64)
 		}
 		vs.chamber[voteType] = true
+		vs.chamberTh[voteType] = threshold
 	} else if validatorType == params.KindHouse {
 		if vs.house == nil {
 			vs.house = make(map[VoteType]bool)
@@ -301,7 +306,7 @@ func (v *Voter) judgeVoteCount(voteType VoteType, count uint32, threshold uint64
 		v.voteOver[blockHash] = &VoteStatus{}
 	}
 	voteStatus := v.voteOver[blockHash]
-	voteStatus.update(voteType, validatorType)
+	voteStatus.update(voteType, validatorType, threshold)
 
 	//// check the votes of other kind validators
 	//oppositeKind := OppositeValidatorType(validatorType)
@@ -714,9 +719,30 @@ func (v *Voter) commit(blockHash, priority common.Hash) {
 	if block == nil {
 		return
 	}
+	// A quorum recorded in voteOver may have lost weight since it was seen: a counted voter that
+	// equivocates is removed from the count (VoteSta.addrVoteInfo), and in a certificate round the
+	// commit is triggered by the OTHER vote kind reaching its quorum. Only announce a commit whose
+	// packed votes still reach the quorums the header verifier demands; otherwise wait, later votes
+	// for this block run through judgeVoteCount again and retry.
+	voteStatus := v.voteOver[blockHash]
+	chamberPrecommits, precommitCount := v.votesMgr.getVotes(Precommit, blockHash, params.KindChamber)
+	if voteStatus == nil || !voteStatus.status(Precommit, params.KindChamber) ||
+		!OverThreshold(precommitCount, voteStatus.chamberTh[Precommit], true) {
+		logging.Warn("commit postponed: precommits fell below the quorum.", "Round", v.round, "RoundIndex", v.roundIndex, "block", blockHash.String(), "count", precommitCount)
+		return
+	}
+	var chamberCerts VotesInfoForBlockHash
+	if v.shouldCert {
+		certs, certCount := v.votesMgr.getVotes(Certificate, blockHash, params.KindChamber)
+		if !voteStatus.status(Certificate, params.KindChamber) || !OverThreshold(certCount, voteStatus.chamberTh[Certificate], false) {
+			logging.Warn("commit postponed: certificate votes fell below the quorum.", "Round", v.round, "RoundIndex", v.roundIndex, "block", blockHash.String(), "count", certCount)
+			return
+		}
+		chamberCerts = certs
+		logging.Debug("Certificate votes.", "Round", v.round, "RoundIndex", v.roundIndex, "count", certCount)
+	}
 	v.committed = true
 	// commit
-	chamberPrecommits, _ := v.votesMgr.getVotes(Precommit, blockHash, params.KindChamber)
 	housePrecommits, _ := v.votesMgr.getVotes(Precommit, blockHash, params.KindHouse)
 	ev := CommitEvent{
 		Round:             v.round,
@@ -725,11 +751,8 @@ func (v *Voter) commit(blockHash, priority common.Hash) {
 		ChamberPrecommits: chamberPrecommits,
 		HousePrecommits:   housePrecommits,
 	}
-
 	if v.shouldCert {
-		chamberCerts, count := v.votesMgr.getVotes(Certificate, blockHash, params.KindChamber)
 		ev.ChamberCerts = chamberCerts
-		logging.Debug("Certificate votes.", "Round", v.round, "RoundIndex", v.roundIndex, "count", count)
 	}
 
 	v.eventMux.AsyncPost(ev)
